@@ -120,7 +120,10 @@ func (_this *arrayBuilder) BuildFromUID(ctx *Context, value []byte, _ reflect.Va
 	return object
 }
 
-func (_this *arrayBuilder) BuildFromArray(ctx *Context, arrayType events.ArrayType, value []byte, _ reflect.Value) reflect.Value {
+func (_this *arrayBuilder) BuildFromArray(ctx *Context, arrayType events.ArrayType, value []byte, dst reflect.Value) reflect.Value {
+	if dst.IsValid() && dst.Type() == _this.containerType && tryBuildIntUintBoolContainerFromArray(ctx, arrayType, value, dst) {
+		return dst
+	}
 	object := _this.advanceElem()
 	_this.elemGenerator(ctx).BuildFromArray(ctx, arrayType, value, object)
 	return object
